@@ -86,6 +86,15 @@ func kfScenarios() []kfScenario {
 			b := privPem(k)
 			return b[:1+c.Rng.Intn(len(b)-20)]
 		}),
+		file("pem-prefix-sweep", expError, func(c *hx.Ctx, k crypto.PrivKey) []byte {
+			b := privPem(k)
+			n := kfSweepPos % (len(b) - 1) // every prefix that drops more than the final newline, in turn (cut inside header, base64 body and trailer)
+			kfSweepPos += 7
+			return b[:n]
+		}),
+		file("valid-trailing-bytes", expStored, func(c *hx.Ctx, k crypto.PrivKey) []byte {
+			return cat(privPem(k), [][]byte{{0}, []byte("-----BEGIN"), c.RandBytes(1 + c.Rng.Intn(20)), privPem(k)[:30]}[c.Rng.Intn(4)])
+		}),
 		file("valid", expStored, func(c *hx.Ctx, k crypto.PrivKey) []byte { return privPem(k) }),
 		file("valid-96-byte-form", expStored, func(c *hx.Ctx, k crypto.PrivKey) []byte {
 			return pem.EncodeToMemory(&pem.Block{Type: keypem.PrivPemType, Bytes: cat(pbVarint(1, 1), pbBytes(2, cat(rawPriv(k), rawPub(k.GetPublic()))))})
@@ -140,6 +149,9 @@ func kfScenarios() []kfScenario {
 		}},
 	}
 }
+
+// kfSweepPos walks through the cut positions of the pem-prefix-sweep scenario.
+var kfSweepPos int
 
 type kfObs struct {
 	panicked bool
